@@ -113,6 +113,14 @@ func (g *refGen) authenSess(scope string, flags uint8) SessScript {
 		if r.Chance(12) {
 			abort = r.Intn(2)
 		}
+		if abort < 0 && len(user) > 0 && len(user) < 250 && r.Chance(15) {
+			// what a terminal may send along with the name: nobody is called that, so the
+			// owner's password opens nothing
+			padded := PickOf(r, user+"\r\n", user+"\n", " "+user, user+" ", user+"\t", "\t"+user+"\r")
+			s := SessASCII(g.nextSid(), flags, padded, pw, r.Bool(), -1)
+			s.Tag = "ascii-padded-user"
+			return s
+		}
 		return SessASCII(g.nextSid(), flags, user, pw, r.Bool(), abort)
 	case c == 12: // PAP with the wrong minor version
 		return SessPAP(g.nextSid(), 0xc0, flags, user, pw)
@@ -423,7 +431,7 @@ func genRef(r *Rand, p *Plan, tier string, focus string) {
 			case 2:
 				bad.Ver = 0xb0
 			case 3:
-				bad.Type = 9
+				bad.Type = PickOf(r, uint8(9), 0, 0, 4, 0x80, 0xff)
 			}
 			cs.Ops = append(cs.Ops, Op{Kind: "send", Pkt: &bad})
 			if r.Chance(60) {
@@ -690,11 +698,18 @@ func genC09probe(r *Rand, p *Plan, tier string) {
 	}
 	var sess []*ss
 	nSess := 2 + r.Intn(3)
+	many := r.Chance(6)
+	if many {
+		nSess = PickOf(r, 17, 20, 33, 65, 130)
+	}
 	for k := 0; k < nSess; k++ {
 		sess = append(sess, &ss{id: r.session() + uint32(k), seq: 1, typ: uint8(1 + r.Intn(3))})
 	}
 	fl := r.flags(true)
 	nPk := 3 + r.Intn(up(10))
+	if many {
+		nPk = 2*nSess + r.Intn(nSess)
+	}
 	for k := 0; k < nPk; k++ {
 		var live []*ss
 		for _, s := range sess {
@@ -736,6 +751,9 @@ func genC09probe(r *Rand, p *Plan, tier string) {
 	p.Scen.Clients = []ClientSpec{cs}
 	p.Tape = r.Tape(1200)
 	p.MaxSteps = 3000
+	if many {
+		p.MaxSteps = 12000
+	}
 }
 
 func genC09(r *Rand, p *Plan, tier string) {
@@ -763,12 +781,23 @@ func genC09(r *Rand, p *Plan, tier string) {
 			g.sid = 4242
 		}
 		k := 2 + r.Intn(up(7))
+		busy := ci == 0 && r.Chance(6)
+		if busy {
+			// a busy single-connect device: dozens of logins in progress on one connection,
+			// most of them waiting for their next packet at the same time
+			k = PickOf(r, 18, 24, 33, 40, 70)
+		}
 		var scripts []SessScript
 		for j := 0; j < k; j++ {
 			fl := flags
 			if r.Chance(30) {
 				// sessions sharing a connection need not share their flag octet
 				fl = PickOf(r, uint8(0), 1, 4, 5)
+			}
+			if busy && r.Chance(85) {
+				u := g.pickUser(adm.Scope)
+				scripts = append(scripts, SessASCII(g.nextSid(), fl, u, g.pickPw(u), r.Chance(30), -1))
+				continue
 			}
 			switch r.Intn(6) {
 			case 0, 1, 2:
